@@ -48,6 +48,7 @@ REQUIRED = {
     "collections_built": 800,
     "component_views": 400,
     "invariants_checked": 20000,
+    "appends_of_collections": 100,
 }
 SENT = 31337.25
 
@@ -263,9 +264,15 @@ def run_history(rng, res: ShardResult, hist_no: int):
                 if not colls or not fields:
                     continue
                 hc = colls[int(rng.integers(len(colls)))]
-                hf = fields[int(rng.integers(len(fields)))]
-                fc = hc.obj.append(hf.obj)
-                log.append(("append", describe(hc), describe(hf)))
+                # one or two arguments, each a field or a whole collection (possibly hc itself)
+                args = []
+                for _ in range(int(rng.integers(1, 3))):
+                    src = colls if rng.random() < 0.4 else fields
+                    args.append(src[int(rng.integers(len(src)))])
+                fc = hc.obj.append(*[h.obj for h in args])
+                log.append(("append", describe(hc), [describe(h) for h in args]))
+                if any(h.kind == "collection" for h in args):
+                    res.count("appends_of_collections")
                 register_collection(fc, fresh=True)
             elif op == "view":
                 cands = [h for h in fields if h.obj.rank > 0]
